@@ -305,3 +305,78 @@ add('C01-send-admits-256-fragments', 'mut01', 2, 'C01',
     needs="message mode with a raw KCP writer, a message of exactly 256 fragments, windows of at least 256, and the reader polling while the message is partly delivered",
     checks={'C01 quick': "caught: 49 runs, C01/core-stream/message-boundary 'message 2 has 16560 bytes at offset 16, the peer's message 2 had 141011' (after the two additions below; missed before)"},
     notes="First evaluation: missed twice over. (1) The raw-core generator clamped every message to 255 fragments, so the boundary was never attempted; it now attempts messages of exactly 256 fragments (refused - then never sent - or accepted - then they must arrive intact). (2) The C01 plan contained only session scenarios, and sessions never fragment; the raw-core scenario (which always carried the C01 oracles) now runs for C01 itself.")
+
+add('C15-false-alarm-retune-recycles-live-shards', 'mw2_15', 2, 'C15',
+    "the decoder's 'recycle old shards' loop runs whenever re-detection finishes, while the shard table is replaced only if the ratio really changed: after a false alarm the pool gets buffers the decoder still references",
+    change="fec.go decode (auto-tune branch): the defaultBufferPool.Put loop moved out of 'if autoDS != dec.dataShards || autoPS != dec.parityShards'",
+    needs="at least two clean FEC groups, a shard buffered in an incomplete group, one packet whose FEC type does not fit its sequence position (unencrypted link), then re-detection confirming the current ratio",
+    also=['C14'],
+    checks={'C15 quick': "caught: 48 runs, C15/pool/double-recycle 'buffer recycled while not owned' (fec-fuzz under C15, added in response; missed before)",
+            'C07 quick': 'missed (correct for its strata: genuine packets never trigger re-detection)'},
+    notes="First evaluation: missed - the forged-input scenarios with the buffer sanitizer ran only under C05, where a pool violation is a foreign signature and is not reported. They now also run for C15. The C14 round-2 agent produced the same change (mw2_14 mutant1).",
+    dup_of=['mw2_14 mutant1 (C14 agent, round 2)'])
+
+add('C10-setmtu-ignores-segments-in-flight', 'mw2_10', 2, 'C10',
+    "KCP.SetMtu checks snd_queue twice and never snd_buf: a reduction is accepted while a larger segment is still in flight",
+    change="kcp.go SetMtu: the loop over kcp.snd_buf replaced by a second loop over kcp.snd_queue",
+    needs="a large message transmitted and still unacknowledged (packet or ACK lost), SetMtu shrinking the MTU at that point, then an RTO retransmission",
+    checks={'C10 quick': "caught: 29 runs, C10/core-mtu/empty-output, C10/mtu/datagram-exceeds-mtu 'datagram of 883 bytes exceeds MTU 381' and C10/survive/crash panic slice bounds out of range @ (*KCP).flush"})
+
+add('C12-probe-wait-not-reset', 'mw2_12', 1, 'C12',
+    "when the peer's window re-opens flush resets ts_probe but no longer probe_wait: on the SECOND closure the stale timer is compared with the absolute clock - harmless below 2^31 ms, never probing again above",
+    change="kcp.go flush (window open branch): kcp.probe_wait = 0 removed",
+    needs="the peer's window closing and re-opening once, closing a second time with everything acknowledged, the clock in its upper half at that moment, and the window update lost",
+    also=['C03'],
+    checks={'C12 quick': 'caught: 31 runs, C12/metamorphic/trace-differs (core-wrap)',
+            'C03 quick': 'caught: 4 runs, C03/resume/transfer-does-not-resume'})
+
+add('C16-lazy-decoder-guard-wrong-field', 'mw2_16', 1, 'C16',
+    "kcpInput's lazy creation of the decoder tests s.fecEncoder == nil instead of s.fecDecoder == nil: an end without FEC creates a fresh 1/1 decoder for EVERY incoming FEC packet",
+    change="sess.go kcpInput: if s.fecDecoder == nil  ->  if s.fecEncoder == nil",
+    needs="FEC enabled at one end only, plus a loss only FEC could repair (the stream itself survives through retransmission)",
+    checks={'C16 quick': "caught: 27 runs, C16/fec-convergence/session-not-converged 'after an uninterrupted run of 272 packets from a 1/2 sender the receiver's decoder (configured 0/0) is at 1/1' (stratum xfer/mismatch-converge, added in response; missed before)"},
+    notes="First evaluation: missed. Convergence was decided only at codec level (fec-stream drives the decoder alone); at session level only 'the stream stays intact' was demanded, which retransmission satisfies. The new stratum gives the receiver one uninterrupted run over a clean FIFO path and reads its decoder's effective ratio through hook H1.")
+
+add('C16-newest-id-reset-to-zero', 'mw2_16', 2, 'C16',
+    "the retune block resets newestShardId to 0 instead of clearing newestValid: with FEC ids in the upper half of the id space the wrap-aware comparison never replaces 0 and every shard set is discarded at once",
+    change="fec.go decode (auto-tune branch): dec.newestValid = false  ->  dec.newestShardId = 0",
+    needs="mismatching ratios, at least one packet accepted under the old ratio, the sender's ids >= 2^31 when the retune happens, then a data loss",
+    checks={'C16 quick': 'caught: 85 runs, C16/fec-completeness/missing-not-reconstructed (ids 2147483659, 4294966632)'})
+
+add('C06-source-filter-pinned-by-first-datagram', 'mw2_06', 1, 'C06',
+    "defaultReadLoop pre-loads its source filter only for *net.UDPAddr remotes: over another transport the filter is pinned to the sender of the FIRST datagram read - before decryption and the integrity check",
+    change="readloop.go defaultReadLoop: the 'else { srcStr = s.remote.String() }' branch dropped",
+    needs="a dialled session over a non-UDP net.PacketConn whose first datagram comes from a foreign source (random or too short is enough), then ordinary traffic from the real peer",
+    also=['C11'],
+    checks={'C06 quick': "missed (the corrupted datagrams injected at dialled sessions claim the real peer's address; and the filter is a local variable of the read loop, invisible to the reflection snapshot)",
+            'C11 quick': 'caught: 3 runs, C11/C01-stream/prefix-mismatch and read-beyond-written (foreign datagram first at a dialled session in non-UDP address mode)'},
+    notes="Caught under C11, which owns 'a dialled session ignores datagrams that do not come from its peer's address'. Under C06 the effect (the session starves) is a liveness effect the no-effect snapshot cannot see; a starvation oracle for the corrupt scenario was considered and not built (a run stopped by the virtual-time cap has other legitimate causes there).")
+
+add('C06-listener-short-datagram-guard', 'mw2_06', 2, 'C06',
+    "Listener.packetInput guards len(data) < nonceSize (16) instead of cryptHeaderSize (20): a 16..19-byte datagram panics in the listener's receive goroutine",
+    change="sess.go Listener.packetInput: len(data) < cryptHeaderSize  ->  len(data) < nonceSize",
+    needs="a datagram of exactly 16..19 bytes at a listener under a CRC-class cipher",
+    also=['C05'],
+    checks={'C06 quick': 'caught: 59 runs, C06/no-effect/crash-on-datagram-failing-the-check @ (*Listener).packetInput',
+            'C05 quick': 'caught: 14 runs, C05/survive/crash @ (*Listener).packetInput'})
+
+add('C09-encrypt-without-its-mutex', 'mw2_09', 1, 'C09',
+    "blockCrypt.Encrypt no longer takes encMu: two sessions of one listener share the BlockCrypt and its CFB feedback block",
+    change="crypt.go blockCrypt.Encrypt: c.encMu.Lock()/Unlock() removed",
+    needs="a CFB block cipher, at least two sessions sharing the BlockCrypt, and one encrypting while the other is between blocks",
+    also=['C14'],
+    checks={'C09 quick': 'missed (same limit as C09-encrypt-uses-decrypt-scratch: needs preemption inside encrypt())',
+            'C14 quick': 'caught: 25 runs, C14/race/encrypt8|encrypt8 and encrypt16|encrypt16'})
+
+add('C01-foreach-reverse-on-wrapped-ring', 'mw2_01', 1, 'C01',
+    "RingBuffer.ForEachReverse yields a wrapped ring in the wrong order: stream-mode Send appends to a MIDDLE queued segment instead of the last one",
+    change="ringbuffer.go ForEachReverse: the two loops of the wrapped branch swapped",
+    needs="the 64-slot snd_queue rotated and a backlog wrapping it, a setter applied in mid-transfer that leaves queued segments not full (SetMtu raised, or stream mode switched on with short messages queued), and one more Write before the backlog drains",
+    checks={'C01 quick': "caught: 4 runs, C01/stream/prefix-mismatch (scenario sess-mtu under C01 with mid-transfer SetStreamMode, added in response; missed before)"},
+    notes="First evaluation: missed. Setters were applied in mid-transfer only by C10's scenario, where a stream violation is a foreign signature; and SetStreamMode was never called after the start. sess-mtu now also switches stream mode at seeded points and runs for C01.")
+
+add('C01-peeksize-counts-reorder-buffer', 'mw2_01', 2, 'C01',
+    "PeekSize counts fragments parked in rcv_buf towards a message's completeness: Recv returns a truncated message, the rest comes out as another one",
+    change="kcp.go PeekSize: rcv_queue.Len() < frg+1  ->  rcv_queue.Len()+rcv_buf.Len() < frg+1",
+    needs="message mode with fragmented messages (raw KCP endpoint), a fragment lost, later segments parked behind the hole, and the application polling Recv before the retransmission arrives",
+    checks={'C01 quick': "caught: 139 runs, C01/core-stream/message-boundary 'message 8 has 219 bytes at offset 903, the peer's message 8 had 417' (raw-core scenario under C01)"})
